@@ -28,7 +28,8 @@ RULE = ('Paired sessions: world A and world B share the configuration and all ma
         'differs from A after T, A has >= 1 fill at or before T, >= 1 rebalance after T, and T is not the last day.'
         " Round-5 reach: alpha kinds `cycle` (rotating weight vectors) and `hist` (weights from the data source's public range query up to the rebalance instant); rewrite mode `wild` (the whole future trades at x0.01 .. x100)."
         " Round-10 reach: market shapes `opens_only_until_after_the_cut` (a symbol whose bars carry no closing prints until a few days past T, adjustment factor 0.5-1) and `suspended_across_the_cut` (no rows for 0-3 days either side of T) in 3 of 8 cases; a quarter of the non-weekly sessions carry a meaningless weekday keyword."
-        " Round-12 reach: `drop_file` - a symbol with no row left in the removed-future world has no file there at all (cuts placed before a late symbol's first bar); suspensions of up to two and a half weeks before the cut.")
+        " Round-12 reach: `drop_file` - a symbol with no row left in the removed-future world has no file there at all (cuts placed before a late symbol's first bar); suspensions of up to two and a half weeks before the cut."
+        " Round-13 reach: files with extra vendor columns (split ratios after the cut differ between the worlds); markets on a quarter-point grid.")
 ASSUMPTIONS = [
     'well-formed CSV files; header-only files are not in the domain',
     'sessions of 5-60 days, <= 5 symbols, signal lookbacks <= 9',
@@ -165,9 +166,9 @@ def run_case(case):
         return session.run_session(cfg, path, have, data_source=ds, data_handler=dh)
     @contextlib.contextmanager
     def laid_out(mk):
-        with market.csv_dir(files(mk)) as pth:
+        with market.csv_dir(files(mk), extra=bool(case.get('extra_cols'))) as pth:
             if two is not None:
-                market.write_market(files(second(mk)), pth + '_2')
+                market.write_market(files(second(mk)), pth + '_2', extra=bool(case.get('extra_cols')))
             try:
                 yield pth
             finally:
@@ -208,6 +209,8 @@ def run_case(case):
         cls.append('two_sources_first_one_starts_after_cut' if two == 'late' else 'two_sources_first_one_ends_near_cut')
     if dropped:
         cls.append('symbol_without_any_file_once_the_future_is_removed')
+    if case.get('extra_cols'):
+        cls.append('files_with_extra_vendor_columns')
     if ra.error:
         cls.append('session_error_' + ra.error[0])
     if ea:
@@ -257,6 +260,11 @@ def cases(draw):
             if all(mk.values()) and prev >= d0:
                 cut = prev
                 labels.append('holiday_on_a_month_end_cut_the_day_before')
+    if draw(st.sampled_from([False] * 7 + [True])):
+        # an old-style market: every price sits on a quarter-point grid (whole numbers and quarters), adjusted closes at half
+        mk = {s_: [r[:3] + [None if r[3] is None else max(0.25, round(r[3] * 4) / 4.0), None if r[4] is None else max(0.25, round(r[4] * 4) / 4.0),
+                            None if r[4] is None or r[5] is None else max(0.25, round(r[4] * 4) / 4.0) * 0.5] for r in rows_] for s_, rows_ in mk.items()}
+        labels.append('prices_on_a_quarter_point_grid')
     forced = None
     if 'late_start_symbol' in labels and draw(st.sampled_from([False, True])):
         # the cut falls before the late symbol's first bar and the future is removed altogether: in that world the
@@ -287,6 +295,7 @@ def cases(draw):
                 labels.append('suspended_across_the_cut')
     mode_ = draw(st.sampled_from(['rewrite', 'rewrite', 'delete', 'mix', 'wild', 'blank']))
     return {'cfg': cfg, 'market': mk, 'cut': [cut.year, cut.month, cut.day], 'drop_file': draw(st.booleans()) or bool(forced),
+            'extra_cols': draw(st.sampled_from([False, False, True])),
             'mode': forced or mode_, 'seed': draw(st.integers(0, 10 ** 6)),
             'labels': labels + lab, 'reuse_handler': draw(st.sampled_from([False, False, True])),
             'file_order': draw(st.sampled_from(['sorted', 'sorted', 'reversed', 'shuffled'])),
